@@ -346,6 +346,12 @@ def keepMask {α} [BEq α] (z : α) (Ms : List (Int × Img α)) (R C tr tc : Int
     else if ne.all (fun l => l.all (fun b => !b)) then .ok (ne.map (fun l => l.map (fun _ => true)))
     else .ok ne
 
+/-- every tile of every segment is empty (then `omit_empty_frames` is switched off by the constructor) -/
+def allTilesEmpty {α} [BEq α] (z : α) (Ms : List (Int × Img α)) (R C tr tc : Int) (offs : List (Int × Int)) : Except ErrKind Bool :=
+  match Ms.mapM (fun m => offs.mapM (tileNonEmpty z R C tr tc m)) with
+  | .error e => .error e
+  | .ok ne => .ok (ne.all (fun l => l.all (fun b => !b)))
+
 /-- frames and table of a tiled segmentation: segments outermost (in the order given), tiles row-major -/
 def cutSegments {α} (z : α) (R C tr tc : Int) (offs : List (Int × Int)) :
     List (Int × Img α) → List (List Bool) → Nat → Except ErrKind (List LutRow × List (Img α))
@@ -372,13 +378,18 @@ the whole path from the matrices handed in to the region read back.  `Ms`: (segm
 segment order (one entry with channel 0 for LABELMAP); `full`: TILED_FULL requested. -/
 def tileThenRead {α} [BEq α] (z : α) (Ms : List (Int × Img α)) (R C tr tc : Int) (full omitEmpty : Bool)
     (chan : Int) (rs re cs ce : Option Int) (asIdx : Bool) : Except ErrKind (Int × Int × Img α) :=
-  if full && omitEmpty then .error .value else     -- `_check_tiled_dimension_organization`
   match tileOffsets tr tc R C with
   | .error e => .error e
   | .ok offs =>
     match keepMask z Ms R C tr tc offs omitEmpty with
     | .error e => .error e
     | .ok keep =>
+      -- `_check_tiled_dimension_organization`: TILED_FULL with `omit_empty_frames` is refused — unless the whole mask is
+      -- empty: then `omit_empty_frames` has already been switched off when the test is made
+      match (if full && omitEmpty then allTilesEmpty z Ms R C tr tc offs else .ok true) with
+      | .error e => .error e
+      | .ok allEmpty =>
+      if full && omitEmpty && !allEmpty then .error .value else
       match cutSegments z R C tr tc offs Ms keep 0 with
       | .error e => .error e
       | .ok (lutSparse, frames) =>
